@@ -28,6 +28,7 @@ func c13(c *Ctx) {
 	c13R5(c)
 	verifyCommitRule(c, "R6")
 	requesterGuardRule(c, "R7")
+	fastSyncHandoverRule(c, "R8")
 }
 
 func c13R1(c *Ctx) {
@@ -189,4 +190,30 @@ func requesterGuardRule(c *Ctx, id string) {
 		{Type: "gemmill/blockchain.bpRequester", Mutex: "gemmill/blockchain.bpRequester.mtx", Fields: []string{"block", "peerID"},
 			Exempt: map[string]string{"gemmill/blockchain.newBPRequester": "constructor: the requester is not shared yet"}},
 	})
+}
+
+
+// fastSyncHandoverRule (C13-R8, C04-R10): the fast-sync routine ends with the handover.
+func fastSyncHandoverRule(c *Ctx, id string) {
+	rule := c.R.Rule(id, "one handover: in poolRoutine the SwitchToConsensus event is fired at most once — no path leads from that call back to it (the routine leaves its loop); a second event resets the running consensus state at the same height and wipes its lock and votes", 1)
+	f := c.Anchor(rule, bcrT+".poolRoutine")
+	if f == nil {
+		return
+	}
+	n := 0
+	for _, ci := range f.CallsTo(cfgx.Named("gemmill/types.FireEventSwitchToConsensus")) {
+		n++
+		ins := ci.(ssa.Instruction)
+		// is the call inside a cycle? (reachable from one of its block's successors)
+		again := false
+		for _, s := range ins.Block().Succs {
+			if len(s.Instrs) > 0 && (s == ins.Block() || f.Reaches(s.Instrs[0], ins)) {
+				again = true
+			}
+		}
+		c.R.Ob(rule, "SwitchToConsensus-fired-once", !again, c.Pos(ci), fname(f), "the handover call lies on a cycle of poolRoutine: the routine keeps running and fires it again on the next tick")
+	}
+	if n == 0 {
+		c.R.Undecided(rule, "SwitchToConsensus", c.P.Pos(f.F.Pos()), fname(f), "no handover call")
+	}
 }
